@@ -468,7 +468,7 @@ func run(r *rand.Rand, caseNo int) (hx.M, error) {
 		rows.Close()
 	}
 	return hx.M{"ev": "Mig", "case": caseNo, "table": table, "v1": mj(v1), "added": mj(added), "added_index_on": addedIdx, "steps": steps, "accept": accept,
-		"want_indexes": want, "final_indexes": final}, nil
+		"want_indexes": want, "final_indexes": final, "reltables": []string{}, "fk": false}, nil
 }
 
 func eq(a, b interface{}) bool {
@@ -489,6 +489,95 @@ func eq(a, b interface{}) bool {
 
 func init() { hx.Register("mig-random", random) }
 
+// ---- a fixed pair of model versions whose second version adds relations (belongs to, many to many):
+// AutoMigrate must also create the tables the new relations refer to, with and without
+// DisableForeignKeyConstraintWhenMigrating.
+type MOwner struct {
+	ID   int64
+	Name string
+}
+type MTag struct {
+	ID   int64
+	Name string
+}
+type MRelV1 struct {
+	ID int64
+	A  int64 `gorm:"index"`
+}
+type MRelV2 struct {
+	ID      int64
+	A       int64 `gorm:"index"`
+	B       string
+	OwnerID *int64
+	Owner   *MOwner
+	Tags    []MTag `gorm:"many2many:mrel_tags;joinForeignKey:MRelID;joinReferences:MTagID"`
+}
+
+func (MRelV1) TableName() string { return "mrel" }
+func (MRelV2) TableName() string { return "mrel" }
+
+func runRel(r *rand.Rand, caseNo int) (hx.M, error) {
+	noFK := r.Intn(2) == 0
+	db, rec, sqldb, err := hx.Open(&gorm.Config{DisableForeignKeyConstraintWhenMigrating: noFK})
+	if err != nil {
+		return nil, err
+	}
+	defer sqldb.Close()
+	sqldb.SetMaxOpenConns(1)
+	e := &env{db, rec, sqldb}
+	steps := []hx.M{}
+	step := func(name string, fn func() error) {
+		rec.Reset()
+		err := fn()
+		es := "nil"
+		if err != nil {
+			es = err.Error()
+		}
+		d, derr := e.dump("mrel", []string{"id", "a"})
+		if derr != nil && name != "m1" {
+			d = []hx.M{{"_err": derr.Error()}}
+		}
+		if d == nil {
+			d = []hx.M{}
+		}
+		steps = append(steps, hx.M{"step": name, "ddl": e.ddl(), "err": es, "dump": d})
+	}
+	step("m1", func() error { return db.AutoMigrate(&MRelV1{}) })
+	step("insert", func() error {
+		for k := 1; k <= 3; k++ {
+			if err := db.Create(&MRelV1{A: int64(k)}).Error; err != nil {
+				return err
+			}
+		}
+		return nil
+	})
+	step("m1again", func() error { return db.AutoMigrate(&MRelV1{}) })
+	step("m2", func() error { return db.AutoMigrate(&MRelV2{}) })
+	step("m2again", func() error { return db.AutoMigrate(&MRelV2{}) })
+	accept := "nil"
+	rec.SetRecording(false)
+	v := MRelV2{A: 7, B: "b", Owner: &MOwner{Name: "o"}, Tags: []MTag{{Name: "t1"}, {Name: "t2"}}}
+	if err := db.Create(&v).Error; err != nil {
+		accept = "create: " + err.Error()
+	} else {
+		var back MRelV2
+		if err := db.Preload("Owner").Preload("Tags").First(&back, v.ID).Error; err != nil {
+			accept = "read: " + err.Error()
+		} else if back.Owner == nil || back.Owner.Name != "o" || len(back.Tags) != 2 || back.B != "b" {
+			accept = fmt.Sprintf("read back %+v", back)
+		}
+	}
+	fields := func(names ...string) []hx.M {
+		out := []hx.M{}
+		for _, n := range names {
+			out = append(out, hx.M{"name": n, "col": n, "type": "int64", "tags": []string{}, "idx": ""})
+		}
+		return out
+	}
+	return hx.M{"ev": "Mig", "case": caseNo, "table": "mrel", "v1": fields("a"), "added": fields("b", "owner_id"), "added_index_on": "", "steps": steps, "accept": accept,
+		"want_indexes": []hx.M{}, "final_indexes": []hx.M{}, "reltables": []string{"m_owners", "m_tags", "mrel_tags"}, "fk": !noFK}, nil
+}
+
 func random(args []string) error {
 	fs := flag.NewFlagSet("mig-random", flag.ExitOnError)
 	out := fs.String("out", "", "events")
@@ -503,7 +592,13 @@ func random(args []string) error {
 	}
 	defer w.Close()
 	for i := 0; i < *n; i++ {
-		ev, err := run(r, i+1)
+		var ev hx.M
+		var err error
+		if i%10 == 9 {
+			ev, err = runRel(r, i+1)
+		} else {
+			ev, err = run(r, i+1)
+		}
 		if err != nil {
 			return err
 		}
